@@ -16,11 +16,17 @@ def minCompatibleLoadVersion : Int := 8
 
 /-! ### writing -/
 
+/-- A float as `write_rtobject` writes it.  JSON has no NaN or infinities: NaN is written as
+    `0.0` and an infinity as `±3.4e38` (as `f32`: bits `0x7F7FC99E` / `0xFF7FC99E`), which is
+    what the reference engine writes.  A finite float is printed with its shortest `f32`
+    digits (the Rust widens to `f64` first; transcripts are compared on the `f32` bits). -/
 def f32ToJson (f : Float32) : Json :=
-  if f.isNaN || f.isInf then .null
-  else
-    let d := F32.display f
-    .flt (if d.toList.contains '.' then d else d ++ ".0")
+  let f : Float32 :=
+    if f.isNaN then Float32.ofBits 0
+    else if f.isInf then (if f > 0.0 then Float32.ofBits 0x7F7FC99E else Float32.ofBits 0xFF7FC99E)
+    else f
+  let d := F32.display f
+  .flt (if d.toList.contains '.' then d else d ++ ".0")
 
 /-- `write_ink_list` -/
 def writeInkList (l : InkList) : Json :=
@@ -89,7 +95,12 @@ def writeThread (root : Obj) (t : Thread) : Out Json :=
     let prev : Out (List (String × Json)) :=
       if t.prevPtr.isNull then .ok []
       else match t.prevPtr.resolve root with
-        | none => .panic "callstack.rs:previous_pointer_resolve"
+        -- a pointer beyond the end of its container addresses no object:
+        -- it is written as `Pointer::get_path` (container path + index)
+        | none => (match t.prevPtr.path root with
+          | some (some p) => .ok [("previousContentObject", .str (String.ofList p.toText))]
+          | some none => .ok []
+          | none => .panic "object.rs:get_path")
         | some a => match pathOf root a with
           | some p => .ok [("previousContentObject", .str (String.ofList p.toText))]
           | none => .panic "object.rs:get_path"
@@ -350,7 +361,10 @@ def readFlow (root : Obj) (name : String) (tok : Json) : Out Flow :=
                   match (jct.bind (fun j => get? j (toString c.originalThreadIndex))).bind
                       (fun t => if t.asObj?.isSome then some t else none) with
                   | some tt => (match readThread root tt with
-                    | .ok t => .ok { c with thread := some t }
+                    | .ok t =>
+                      -- choosing the choice makes this thread the current one
+                      if t.callstack.isEmpty then bad "loading choice threads: empty call stack"
+                      else .ok { c with thread := some t }
                     | .err k m => .err k m
                     | .panic p => .panic p)
                   | none => bad "loading choice threads") choices
